@@ -42,11 +42,22 @@ def insert_ghosts(fnode, ghosts, fnname):
             continue
         anchor = (g["before"] or g["after"]).strip()
         matches = []
+        if anchor.startswith("loop:"):
+            k = int(anchor.split(":")[1])
+            ls = [x for x in loops_of(fnode) if not getattr(x, "_ghost", False)]
+            if k > len(ls):
+                raise AttachError(f"{fnname}: ghost anchor {anchor}: only {len(ls)} loops")
+            target = ls[k - 1]
+            for parent in ast.walk(fnode):
+                for field in ("body", "orelse", "finalbody"):
+                    lst = getattr(parent, field, None)
+                    if isinstance(lst, list) and any(x is target for x in lst):
+                        matches.append((target.lineno, target.col_offset, lst, target))
         for parent in ast.walk(fnode):
             for field in ("body", "orelse", "finalbody"):
                 lst = getattr(parent, field, None)
                 if isinstance(lst, list):
-                    for i, st in enumerate(lst):
+                    for i, st in enumerate(lst if not anchor.startswith("loop:") else []):
                         if isinstance(st, ast.stmt) and not getattr(st, "_ghost", False) and _first_line(st).rstrip(":") == anchor.rstrip(":"):
                             matches.append((st.lineno, st.col_offset, lst, st))
         matches.sort(key=lambda m: (m[0], m[1]))
@@ -95,14 +106,20 @@ class VerifyCtx(FnCtx):
         return self._loop_tables[name]
 
     def get_count_fn(self):
-        """COUNT(arr, n, ch): number of positions < n holding ch (recursive definition)."""
+        """COUNT(arr, n, ch): number of positions < n holding ch (recurrence instantiated per array in use)."""
         if self._count_fn is None:
-            f = z3.Function("COUNT", AII, I, I, I)
-            a = z3.Const("a!cnt", AII)
-            n, c = z3.Ints("n!cnt c!cnt")
-            self.axioms.append(z3.ForAll([a, c], f(a, 0, c) == 0, patterns=[f(a, 0, c)]))
-            self.axioms.append(z3.ForAll([a, n, c], z3.Implies(n > 0, f(a, n, c) == f(a, n - 1, c) + z3.If(a[n - 1] == c, 1, 0)),
-                                         patterns=[f(a, n, c)]))
+            from .world import COUNT
+            seen = set()
+            n = z3.Int("n!cnt")
+
+            def f(a, k, c):
+                key = (a.get_id(), c.get_id())
+                if key not in seen:
+                    seen.add(key)
+                    self.axioms.append(COUNT(a, 0, c) == 0)
+                    self.axioms.append(z3.ForAll([n], z3.Implies(n > 0, COUNT(a, n, c) == COUNT(a, n - 1, c) + z3.If(a[n - 1] == c, 1, 0)),
+                                                 patterns=[COUNT(a, n, c)]))
+                return COUNT(a, k, c)
             self._count_fn = f
             self.spec.setdefault("COUNT", f)
         return self._count_fn
@@ -147,7 +164,10 @@ def verify_function(c, mutate=None, canary=False):
         pnames.append(a.vararg.arg)
     if a.kwarg:
         pnames.append(a.kwarg.arg)
+    init_self = getattr(c, "init_self", None)
     for p in pnames:
+        if p == "self" and init_self is not None:
+            continue
         if p not in c.params:
             raise AttachError(f"{c.name}: parameter {p} has no type in the contract")
         env[p] = api.mk(c.params[p], p, inv)
@@ -155,6 +175,17 @@ def verify_function(c, mutate=None, canary=False):
         if p not in env:
             env[p] = api.mk(t, p, inv)       # ghost parameters
     st = St(env, inv)
+    if init_self is not None:
+        from .calls import construct
+        cls, argtypes = init_self
+        kw = {k: api.mk(t, "init." + k, st.pc) for k, t in argtypes.items()}
+        for k, v in kw.items():
+            st.env["init_" + k] = v
+        st.env["self"] = construct(X, cls, [], kw, st, fnode, False)
+        if cx.pending:
+            for cond, exc in cx.pending:
+                st.pc.append(z3.Not(cond))
+            cx.pending = []
     for lab, e in c._requires:
         st.pc.append(boolify(X.ev(e, st, True)))
     cx.entry = st.copy()
